@@ -89,6 +89,25 @@ Labs(T) == {e[1] : e \in T.ent}
 (* x*a + y*b with Gaussian-integer amplitudes *)
 LinComb(a, x, b, y) == [a EXCEPT !.legs = [k \in 1..NRank(a) |-> UnionLeg(a.legs[k], b.legs[k])],
                                  !.ent = {e \in {<<lab, CAdd(CMul(x, ValAt(a, lab)), CMul(y, ValAt(b, lab)))>> : lab \in Labs(a) \cup Labs(b)} : e[2] # CZ}]
+(* ---- yastn.block: a super-tensor assembled from operands placed at positions along the legs (direct sum of the spaces of the positions; a leg on which *)
+(* all operands sit at the same position is a common leg).  ops: sequence of operands (no fusion: every leg native), pos[k][n] = position of operand k on    *)
+(* leg n.  In the abstract view the blocked leg is a native leg that cannot be unfused; labels are shifted by the dimensions of the earlier positions.       *)
+BlkPosSet(pos, n) == {pos[k][n] : k \in 1..Len(pos)}
+BlkSecs(ops, pos, n, p) == UNION {{q[1] : q \in RangeOf(ops[k].legs[n])} : k \in {j \in 1..Len(ops) : pos[j][n] = p}}
+BlkDim(ops, pos, n, p, t) == LET K == {k \in 1..Len(ops) : pos[k][n] = p /\ \E q \in RangeOf(ops[k].legs[n]) : q[1] = t} IN
+                             IF K = {} THEN 0 ELSE DimOf(ops[CHOOSE k \in K : TRUE].legs[n], t)
+BlkOff(ops, pos, n, p, t) == SumSet({0}) + MapThenSumSet(LAMBDA pp : BlkDim(ops, pos, n, pp, t), {pp \in BlkPosSet(pos, n) : pp < p})
+BlkLeg(ops, pos, n) == LET ts == UNION {BlkSecs(ops, pos, n, p) : p \in BlkPosSet(pos, n)} IN
+                       SortSeq(SetToSeq({<<t, SumSet({0}) + MapThenSumSet(LAMBDA p : BlkDim(ops, pos, n, p, t), BlkPosSet(pos, n))>> : t \in ts}), LAMBDA x, y : LexLess(x[1], y[1]))
+BlkLab(ops, pos, k, lab) == [n \in 1..Len(lab) |-> <<lab[n][1], BlkOff(ops, pos, n, pos[k][n], lab[n][1]) + lab[n][2]>>]
+PreBlock(ops, pos) == /\ Len(ops) >= 1 /\ Len(pos) = Len(ops)
+                      /\ \A k \in 1..Len(ops) : /\ ops[k].sym = ops[1].sym /\ ops[k].s = ops[1].s /\ ops[k].n = ops[1].n /\ ~ops[k].dg
+                                                  /\ Len(pos[k]) = NRank(ops[1]) /\ \A j \in 1..LRank(ops[k]) : ops[k].grp[j] = Leaf
+                      /\ \A j, k \in 1..Len(ops) : j # k => pos[j] # pos[k]
+(* operands that share a position on a leg must agree on the dimensions of the sectors they share there *)
+BlockDimsOK(ops, pos) == \A n \in 1..NRank(ops[1]) : \A j, k \in 1..Len(ops) : pos[j][n] = pos[k][n] => DimsAgree(ops[j].legs[n], ops[k].legs[n])
+Block(ops, pos) == [ops[1] EXCEPT !.legs = [n \in 1..NRank(ops[1]) |-> BlkLeg(ops, pos, n)],
+                                  !.ent = UNION {{<<BlkLab(ops, pos, k, f[1]), f[2]>> : f \in ops[k].ent} : k \in 1..Len(ops)}]
 Scale(a, x) == [a EXCEPT !.ent = {e \in {<<f[1], CMul(x, f[2])>> : f \in a.ent} : e[2] # CZ}]
 MapVals(a, F(_)) == [a EXCEPT !.ent = {e \in {<<f[1], F(f[2])>> : f \in a.ent} : e[2] # CZ}]
 NegS(s) == [k \in 1..Len(s) |-> -s[k]]
